@@ -450,6 +450,22 @@ class VC:
             return [self.call(a[0], *xs) for xs in zip(*a[1:])]
         if f is filter:
             return [x for x in a[1] if self.truth(self.call(a[0], x) if a[0] is not None else x)]
+        if (f is sum or f is max or f is min) and a and (builtins.any(isinstance(x, (SymZ, SymBool)) for x in a)
+                                                          or (isinstance(a[0], (list, tuple)) and builtins.any(isinstance(x, (SymZ, SymBool)) for x in a[0]))):
+            # Python's own definitions, replayed through the hooks: sum = left fold of +; max / min keep the FIRST extremal element
+            xs = list(a[0]) if (len(a) == 1 and isinstance(a[0], (list, tuple))) else list(a)
+            if f is sum:
+                acc = a[1] if len(a) > 1 else 0
+                for x in xs:
+                    acc = self.binop("Add", acc, x)
+                return acc
+            if not xs:
+                raise ValueError("max()/min() of an empty sequence")
+            best = xs[0]
+            for x in xs[1:]:
+                if self.truth(self.compare("Gt" if f is max else "Lt", x, best)):
+                    best = x
+            return best
         if f is all or f is any:
             vals = list(a[0])
             if builtins.any(is_sym(v) for v in vals):
@@ -528,6 +544,20 @@ class VC:
                 return SymZ(a - b)
             if op == "Mult" and not (isinstance(l, SymZ) and isinstance(r, SymZ)):
                 return SymZ(a * b)
+            # exact on mathematical integers when the right operand is a positive literal: Python's // and % floor like z3's div / mod
+            if isinstance(r, int) and not isinstance(r, bool):
+                if op == "LShift" and 0 <= r <= 64:
+                    return SymZ(a * (2 ** r))
+                if op == "RShift" and 0 <= r <= 64:
+                    return SymZ(a / z3.IntVal(2 ** r))
+                if op == "FloorDiv" and r > 0:
+                    return SymZ(a / z3.IntVal(r))
+                if op == "Mod" and r > 0:
+                    return SymZ(a % z3.IntVal(r))
+            if getattr(self.e, "int_uf", False) and op in ("BitAnd", "BitOr", "BitXor", "LShift", "RShift", "Mod", "FloorDiv", "Mult", "Pow"):
+                # UNINTERPRETED: sound for proving two programs equal (congruence), may yield spurious counter-models - the caller must replay
+                self.e.uf_applied = getattr(self.e, "uf_applied", 0) + 1
+                return SymZ(z3.Function("py_" + op, z3.IntSort(), z3.IntSort(), z3.IntSort())(a, b))
             raise Unsupported(f"operator {op} on a symbolic integer")
         if isinstance(l, SymExpr) or isinstance(r, SymExpr):
             if op == "BitAnd":
@@ -575,6 +605,8 @@ class VC:
                 return SymZ(-v.z)
             if op == "UAdd":
                 return v
+            if op == "Invert":
+                return SymZ(-v.z - 1)          # ~x == -x - 1 on Python integers
         if is_sym(v):
             raise Unsupported(f"unary {op} on symbolic value")
         return {"Invert": operator.invert, "USub": operator.neg, "UAdd": operator.pos}[op](v)
